@@ -321,13 +321,13 @@ yprp_iffeatures(struct lys_ypr_ctx *pctx, struct lysp_qname *iffs, struct lysp_e
         ypr_close_parent(pctx, flag);
         extflag = 0;
 
-        ly_print_(pctx->out, "%*s<if-feature name=\"%s",  INDENT, iffs[u].str);
+        ly_print_(pctx->out, "%*s<if-feature name=\"%s\"",  INDENT, iffs[u].str);
 
         /* extensions */
         LEVEL++;
         yprp_extension_instances(pctx, LY_STMT_IF_FEATURE, u, exts, &extflag);
         LEVEL--;
-        ly_print_(pctx->out, "\"/>\n");
+        ypr_close(pctx, "if-feature", extflag);
     }
 }
 
